@@ -222,7 +222,9 @@ type Generated struct {
 
 // Generate runs plugin and gogo on program p with its own configuration delivered as YAML in dir.
 func Generate(pluginBin, self string, p *spec.Program, dir string) (*Generated, error) {
-	r := p.Config.Render(nil, nil)
+	cfg := p.Config.Clone()
+	cfg.Types = append(append([]string{}, p.Unbuildable...), cfg.Types...)
+	r := cfg.Render(nil, nil)
 	cfgPath := ""
 	if r.YAML != "" {
 		cfgPath = filepath.Join(dir, "config.yaml")
